@@ -17,7 +17,7 @@ INVARIANTS %(invs)s
 
 CONCRETE = {"dq": ['"'], "sq": ["'"], "bs": ["\\"], "pct": ["%"], "lb": ["{"], "rb": ["}"], "nl": ["\n"],
             "na": ["é", "漢", "😀", "ß"], "n": ["n"], "v": ["v"], "q": ["b", "t", "u", "x", "z", "Q", "d", "s", "0"],
-            "sp": [" "], "cc": ["\x07", "\x1b", "\x0b", "\x01", "\x7f", "\x08"], "ap": ["\U000e0067", "\U0001f3f4", "\U000e007f"], "P1": ["{{ex.p1}}"], "P2": ["{{ core.name }}"], "V1": ["VAL1"], "V2": ["VAL2"], "N0": ["null"]}
+            "sp": [" "], "cm": [",", ";", ", "], "cc": ["\x07", "\x1b", "\x0b", "\x01", "\x7f", "\x08"], "ap": ["\U000e0067", "\U0001f3f4", "\U000e007f"], "P1": ["{{ex.p1}}"], "P2": ["{{ core.name }}"], "V1": ["VAL1"], "V2": ["VAL2"], "N0": ["null"]}
 
 
 def concretize(symbols, choice):
@@ -31,7 +31,7 @@ def render_pair(s, expect, rnd):
 
 
 def klass(s):
-    cs = sorted(set(c for c in s if c in ("dq", "bs", "pct", "nl", "lb", "rb", "sq", "na", "cc", "ap")))
+    cs = sorted(set(c for c in s if c in ("dq", "bs", "pct", "nl", "lb", "rb", "sq", "na", "cc", "ap", "cm")))
     return "+".join(cs) or "plain"
 
 
@@ -68,7 +68,8 @@ def run(tier):
                 kinds = ["profileName", "validationName", "in", "containsAll", "containsSome"]
         for k in kinds:
             rid = "t%06d/%s" % (i, k)
-            rows.append({"id": rid, "kind": k, "text": text, "present": {p: True for p in c["present"]}})
+            rows.append({"id": rid, "kind": k, "text": text, "present": {p: True for p in c["present"]},
+                         "pad": 40 if (i + len(k)) % 2 == 0 and k in ("in", "containsAll", "containsSome") else 0})
             meta[rid] = (c, text, want)
     # (B) random printable-Unicode strings: the expectation is computed by TLC in... the same operators need symbols, so
     # these are classified symbol-wise and judged by the enumerated expectation rule (verbatim / dq->sq), kept small
@@ -130,7 +131,7 @@ def run(tier):
         "states": sum(r.distinct for r in rs), "transitions": sum(r.generated for r in rs),
         "traces_validated_against_impl": len(rows),
         "evaluations": len(rows), "distinct_nontrivial": nontriv,
-        "rule": "every string of length <= %d over 14 character classes (quotes, backslash, %%, braces, newline, non-ASCII, control, "
+        "rule": "every string of length <= %d over 15 character classes (quotes, backslash, %%, braces, newline, non-ASCII, control, separators, "
                 "astral non-printable, the letters n and v, other letters, space) plus 2 placeholders in messages, with every subset of placeholder "
                 "properties present on the focus node (%d cases enumerated by TLC, the design chain proved equal to the "
                 "expectation on each%s); each concretised and placed as message / profile name / validation name / value of "
